@@ -212,7 +212,7 @@ def eval_sub(e, env):
     return pyx.evaluate(e, env)
 
 
-def assembly_slices(ctx, rng):
+def assembly_slices(ctx, rng, t=None):
     """each group of an assembly is evaluated with that panel's own slice of the amplitude vector"""
     from compmech.panel.assembly import PanelAssembly
     cs = [pc.gen_panel_case(rng, models=('Plate',), max_mn=3, y12=False) for _ in range(rng.randint(2, 4))]
@@ -223,6 +223,12 @@ def assembly_slices(ctx, rng):
     asm = PanelAssembly(ps)
     size = asm.get_size()
     c = np.array([rng.uniform(-1, 1) for _ in range(size)])
+    strided = (rng.random() < 0.6) if t is None else (t % 2 == 0)
+    if strided:
+        # the caller's vector is a strided VIEW (a column of a C-ordered mode matrix, c[::2], ...): same numbers
+        big = np.array([rng.uniform(-7, 7) for _ in range(2 * size)])
+        big[::2] = c
+        c = big[::2]
     k = rng.randrange(len(ps))
     res = asm.uvw(c, 'g%d' % k, gridx=3, gridy=3)
     p = ps[k]
@@ -232,8 +238,21 @@ def assembly_slices(ctx, rng):
     want = ref.uvw(c[p.col_start:p.col_end], xs=xs, ys=ys)
     got_w = res['w'][0] if isinstance(res, dict) else res[2][0]
     if np.abs(np.ravel(got_w) - np.ravel(want[2])).max() > 1e-12 * max(np.abs(want[2]).max(), 1e-300):
-        return dict(panels=[(c_['m'], c_['n']) for c_ in cs], group=k), \
+        return dict(panels=[(c_['m'], c_['n']) for c_ in cs], group=k, strided=strided), \
             'assembly.uvw for group %d does not use that panel\'s own slice of the amplitude vector' % k
+    own = np.ascontiguousarray(np.array(c)[p.col_start:p.col_end])
+    for what in ('strain', 'stress'):
+        got = getattr(asm, what)(c, 'g%d' % k, gridx=3, gridy=3, NLterms=False)
+        ref_ = getattr(ref, what)(own, xs=xs, ys=ys, NLterms=False)
+        keys = ('exx', 'eyy', 'gxy', 'kxx', 'kyy', 'kxy') if what == 'strain' else ('Nxx', 'Nyy', 'Nxy', 'Mxx', 'Myy', 'Mxy')
+        for key in keys:
+            a1, a2 = np.ravel(got[key][0]), np.ravel(ref_[key])
+            if a1.shape != a2.shape or np.abs(a1 - a2).max() > 1e-11 * max(np.abs(a2).max(), 1e-300):
+                return dict(panels=[(c_['m'], c_['n']) for c_ in cs], group=k, strided=strided), \
+                    ('assembly.%s for group %d (%s amplitude vector): %s differs from the panel\'s own evaluation with its own slice '
+                     '(max abs diff %.3e of %.3e)' % (what, k, 'strided view of the' if strided else 'contiguous', key,
+                                                      np.abs(a1 - a2).max() if a1.shape == a2.shape else float('nan'),
+                                                      np.abs(a2).max()))
     return None, None
 
 
@@ -273,8 +292,8 @@ def correspondence(ctx):
             ctx.violation('chunking model returned %r for %d points on %d cores' % (rep[:80], npts, cores),
                           dict(cores=cores, npts=npts), found_input=False)
             return
-    for t in range(ctx.scale(3, 20)):
-        c, bad = assembly_slices(ctx, rng)
+    for t in range(ctx.scale(4, 20)):
+        c, bad = assembly_slices(ctx, rng, t)
         ctx.evaluations += 1
         if bad:
             ctx.violation('C11 fails on the implementation: ' + bad, dict(case=c, derived='assembly'))
